@@ -89,7 +89,7 @@ def generate(prop, seed, tier):
             op["then_shorter"] = S.chance(0.35)
             ops.append(op)
         elif kind == "load":
-            op = {"op": "load", "rows": S.pick([1, 2, 3, 10, 100, 1000, 10000] if tier == "thorough" else [1, 2, 3, 10, 100, 1000]), "cols": S.int(1, 3), "fseed": S.sub("file", k), "prec": S.pick([4, 2, 6]), "final_newline": S.chance(0.8), "crlf": S.chance(0.2), "fault": None,
+            op = {"op": "load", "rows": S.pick([1, 2, 3, 10, 100, 1000, 10000] if tier == "thorough" else [1, 2, 3, 10, 100, 1000]), "cols": S.int(1, 3), "fseed": S.sub("file", k), "prec": S.pick([4, 2, 6]), "final_newline": S.chance(0.8), "crlf": S.chance(0.2), "sep_style": S.pick(["; ", "; ", ";", ";  "]), "exp_notation": S.chance(0.15), "blank_tail": S.chance(0.15), "fault": None,
                   # history: the caller changes the returned frame in place, then reads the same file again
                   "reload": S.wpick([(None, 3), ("scale", 1), ("drop", 1), ("rename", 1), ("plain", 1)])}
             if S.chance(0.5):
@@ -306,20 +306,21 @@ def do_load(run, scen, op, si, root):
     rng = np.random.default_rng(op["fseed"])
     names = ["significant wave height (m)", "zero-up-crossing period (s)", "wind speed (m/s)"][: op["cols"]]
     start = datetime.datetime(1990 + int(rng.integers(0, 30)), int(rng.integers(1, 13)), int(rng.integers(1, 28)), int(rng.integers(0, 24)))
-    lines = ["time (YYYY-MM-DD-HH); " + "; ".join(names)]
+    sep = op.get("sep_style", "; ")
+    lines = ["time (YYYY-MM-DD-HH)" + sep + sep.join(names)]
     vals = []
     stamps = []
     for r in range(op["rows"]):
         t = start + datetime.timedelta(hours=r)
         row = rng.uniform(0.0, 30.0, size=op["cols"])
-        txt = [f"{v:.{op['prec']}f}" for v in row]
+        txt = [(f"{v:.{op['prec']}e}" if op.get("exp_notation") else f"{v:.{op['prec']}f}") for v in row]
         vals.append([float(s) for s in txt])
         stamps.append(t)
-        lines.append(t.strftime("%Y-%m-%d-%H") + "; " + "; ".join(txt))
+        lines.append(t.strftime("%Y-%m-%d-%H") + sep + sep.join(txt))
     path = os.path.join(root, f"l{si}.txt")
     nl = "\r\n" if op.get("crlf") else "\n"
     with open(path, "w", newline="") as f:
-        f.write(nl.join(lines) + (nl if op["final_newline"] else ""))
+        f.write(nl.join(lines) + (nl if op["final_newline"] else "") + (nl + nl if op.get("blank_tail") and op["final_newline"] else ""))
     fault = op["fault"]
     exc = None
     df = None
